@@ -99,6 +99,9 @@ pub struct GenCfg {
     pub max_as: usize,
     pub max_sets: usize,
     pub max_routes_per_as: usize,
+    /// 1-4 filter-sets, some of which hold constructs the evaluator cannot evaluate (PeerAS, AS-path
+    /// regular expression, attribute match) or a literal prefix list of 300-1200 entries (5-20 KB of object text)
+    pub rich_filter_sets: bool,
 }
 
 pub fn v4_prefix(ctx: &mut Ctx) -> String {
@@ -181,7 +184,7 @@ pub fn gen_db(ctx: &mut Ctx, cfg: &GenCfg) -> Db {
         }
         db.route_sets.insert(name.clone(), members);
     }
-    let n_fs = ctx.pick(3);
+    let n_fs = if cfg.rich_filter_sets { 1 + ctx.pick(4) } else { ctx.pick(3) };
     for i in 0..n_fs {
         // filter-sets refer to names defined above (and to earlier filter-sets)
         let mut atoms: Vec<String> = set_names.clone();
@@ -190,7 +193,21 @@ pub fn gen_db(ctx: &mut Ctx, cfg: &GenCfg) -> Db {
         for j in 0..i {
             atoms.push(format!("FLTR-SET{j}"));
         }
-        let e = gen_expr(ctx, &atoms, 1);
+        let mut e = gen_expr(ctx, &atoms, 1);
+        if cfg.rich_filter_sets {
+            match ctx.tape.weighted(&[4, 1, 1, 1, 2]) {
+                1 => e = format!("({e}) AND PeerAS"),
+                2 => e = format!("({e}) AND <^AS64500 AS64501*$>"),
+                3 => e = format!("({e}) AND community(64500:1)"),
+                4 => {
+                    let n = 300 + ctx.pick(900);
+                    let a = 11 + ctx.pick(100);
+                    let list: Vec<String> = (0..n).map(|k| format!("{a}.{}.{}.0/25", k / 256, k % 256)).collect();
+                    e = format!("{{{}}}", list.join(", "));
+                }
+                _ => {}
+            }
+        }
         db.filter_sets.insert(format!("FLTR-SET{i}"), e);
     }
     db
@@ -305,6 +322,8 @@ pub struct IrrState {
     pub faults_fired: Vec<(usize, String, Fault)>,
     /// refuse connections
     pub refuse: bool,
+    /// data queries (!i !g !6 !m) are read but never answered (a mirror that went silent)
+    pub silent_data: bool,
     pub connections: usize,
     /// !g / !6 for an AS without routes: answer D (true) or C (false)
     pub empty_is_not_found: bool,
@@ -314,6 +333,8 @@ pub struct IrrState {
     pub seg_mode: usize,
     pub seg_rng: Option<Rng>,
     pub reads: usize,
+    /// reads into an empty buffer (a client whose receive buffer is full asks for 0 bytes and gets 0 for ever)
+    pub zero_len_reads: usize,
     pub short_reads: usize,
     pub partial_writes: usize,
     pub bytes_out: usize,
@@ -345,6 +366,9 @@ impl IrrState {
         }
         let k = self.data_queries;
         self.data_queries += 1;
+        if self.silent_data {
+            return String::new();
+        }
         if let Some(f) = self.broken_queries.get(line).copied() {
             self.faults_fired.push((k, line.to_string(), f));
             return match f {
@@ -480,6 +504,14 @@ impl irrc::SimStream for IrrStream {
         let mut st = self.state.0.lock().unwrap();
         if st.dead {
             return Err(std::io::Error::new(std::io::ErrorKind::ConnectionReset, "FakeIrrd: connection reset"));
+        }
+        if buf.is_empty() {
+            st.zero_len_reads += 1;
+            if st.zero_len_reads > 10_000 {
+                // a real socket answers Ok(0) every time: the client would spin for ever
+                return Err(std::io::Error::new(std::io::ErrorKind::Other, "FakeIrrd: the client keeps reading into a full buffer"));
+            }
+            return Ok(0);
         }
         if self.out.is_empty() {
             // a real socket would block for ever: the client reads only when it expects data
@@ -635,7 +667,10 @@ pub fn reference_eval(db: &Db, expr: &str) -> Result<Vec<String>, String> {
         return Err("unevaluable construct".into());
     }
     let mut r = Reference { db, depth: 0 };
-    let set = <Reference<'_> as Evaluator>::evaluate(&mut r, parsed).map_err(|e| e.0)?;
+    // a filter-set may hold constructs for which rpsl's evaluation is not implemented (it panics)
+    let set = std::panic::catch_unwind(std::panic::AssertUnwindSafe(|| <Reference<'_> as Evaluator>::evaluate(&mut r, parsed)))
+        .map_err(|_| "unevaluable construct (inside a filter-set)".to_string())?
+        .map_err(|e| e.0)?;
     Ok(render_set(&set))
 }
 
